@@ -181,5 +181,76 @@ theorem C14_clean_start_discards_seq (caps : Caps) (s : Server) (hr : ReachSeq c
 
 end Mochi.Broker
 
+/-! ## Non-vacuity: a resumed session, a Clean Start over it, a refused CONNECT at the limit -/
+namespace Mochi.Broker
+open Mochi.Topics
+
+/-- limit 2.  `c1` (MQTT 5, session expiry 100) subscribes to `a` with QoS 1; `c2` publishes to `a` with QoS 1 — `c1`
+    holds an unacknowledged in-flight record; `c1`'s connection is lost: its session stays registered (object 1) -/
+def c14History : List Op :=
+  [.connect 1 { ver := 5, clean := false, id := [99, 49], sei := some 100 },
+   .recv 1 (.subscribe 5 0 [{ filter := [97], qos := 1 }]),
+   .connect 2 { ver := 4, id := [99, 50] },
+   .recv 2 (.publish 1 false false 7 [97] [1] 0 none),
+   .drop 1]
+
+def c14Caps : Caps := { maximumClients := 2 }
+def c14State : Server := run (init c14Caps) c14History
+/-- `c1` again, without Clean Start -/
+def c14Resume : Connect := { ver := 5, clean := false, id := [99, 49], sei := some 100 }
+/-- `c1` again, with Clean Start -/
+def c14Clean : Connect := { ver := 5, clean := true, id := [99, 49] }
+
+theorem c14State_reach : ReachSeq c14Caps c14State := ReachSeq.init.run c14History (by decide) (by decide)
+
+example : assocGet c14State.clients [99, 49] = some 1 ∧ (getObj c14State 1).inflight.length = 1 ∧
+    (getObj c14State 1).subs.map (·.1) = [[97]] ∧ c14State.objs.length = 3 := by decide
+
+/-- **resumed**: both CONNECTs are admitted on the fresh connection 3 -/
+theorem c14Resume_admitted : refuseCode (connState c14State 3 c14Resume) c14Resume (parseConnect c14State 3 c14Resume) = none := by
+  decide
+theorem c14Clean_admitted : refuseCode (connState c14State 3 c14Clean) c14Clean (parseConnect c14State 3 c14Clean) = none := by
+  decide
+
+/-- the resumed session: session present 1, then the in-flight PUBLISH is resent with DUP -/
+example : (writesTo 3 (step c14State (.connect 3 c14Resume)).2).map (fun pk => match pk with
+      | .connack v sp c _ _ _ => (0, v, sp, c)
+      | .publish _ m _ => (1, m.id, m.dup, m.qos)
+      | _ => (2, 0, false, 0)) = [(0, 5, true, 0), (1, 1, true, 1)] := by decide
+/-- Clean Start over it: session present 0, nothing else; no index entry for `c1` afterwards -/
+example : writesTo 3 (step c14State (.connect 3 c14Clean)).2 = [.connack 5 false 0 1024 2 none] ∧
+    indexEntries (step c14State (.connect 3 c14Clean)).1.topics = [] ∧
+    indexEntries (step c14State (.connect 3 c14Resume)).1.topics = [([99, 49], [97])] := by decide
+
+/-- `C14_session_present_iff_seq` instantiated: session present is true for the resuming CONNECT … -/
+example : ∃ sp seiOut rest, writesTo 3 (step c14State (.connect 3 c14Resume)).2 = .connack 5 sp 0 1024 2 seiOut :: rest ∧
+    (∀ pk ∈ rest, pk.isConnack = false) ∧ sp = true := by
+  obtain ⟨sp, seiOut, rest, h1, h2, _, h4⟩ :=
+    C14_session_present_iff_seq c14Caps c14State c14State_reach 3 c14Resume (by decide) c14Resume_admitted
+  exact ⟨sp, seiOut, rest, h1, h2, h4.trans (by decide)⟩
+/-- … and false for the one with Clean Start -/
+example : ∃ sp seiOut rest, writesTo 3 (step c14State (.connect 3 c14Clean)).2 = .connack 5 sp 0 1024 2 seiOut :: rest ∧
+    (∀ pk ∈ rest, pk.isConnack = false) ∧ sp = false := by
+  obtain ⟨sp, seiOut, rest, h1, h2, _, h4⟩ :=
+    C14_session_present_iff_seq c14Caps c14State c14State_reach 3 c14Clean (by decide) c14Clean_admitted
+  exact ⟨sp, seiOut, rest, h1, h2, h4.trans (by decide)⟩
+
+/-- `C14_clean_start_discards_seq` instantiated: the resumed object 3 has object 1's record and subscription map … -/
+example : (getObj (admitA (connState c14State 3 c14Resume) 3 c14Resume).1 3).inflight = (getObj c14State 1).inflight ∧
+    (getObj (admitA (connState c14State 3 c14Resume) 3 c14Resume).1 3).subs = (getObj c14State 1).subs ∧
+    (getObj c14State 1).inflight ≠ [] ∧ (getObj c14State 1).subs ≠ [] := by
+  obtain ⟨a, _, c, _⟩ := (C14_clean_start_discards_seq c14Caps c14State c14State_reach 3 c14Resume (by decide)
+    c14Resume_admitted).2 1 (by decide) (by decide)
+  exact ⟨a, c (by decide), by decide, by decide⟩
+/-- … the Clean Start object 3 has nothing, and the index no entry for `c1` -/
+example : (getObj (step c14State (.connect 3 c14Clean)).1 3).subs = [] ∧
+    ∀ f, ([99, 49], f) ∉ indexEntries (step c14State (.connect 3 c14Clean)).1.topics := by
+  obtain ⟨_, _, _, d, e⟩ := (C14_clean_start_discards_seq c14Caps c14State c14State_reach 3 c14Clean (by decide)
+    c14Clean_admitted).1 (by decide)
+  exact ⟨d, e⟩
+
+end Mochi.Broker
+
 #print axioms Mochi.Broker.C14_session_present_iff_seq
+#print axioms Mochi.Broker.c14State_reach
 #print axioms Mochi.Broker.C14_clean_start_discards_seq
